@@ -10,10 +10,8 @@ C11_CLAUSES = {'value_dropped_twice', 'published_value_dropped_while_vector_aliv
 
 
 def explore(prop, wd):
-    tdir = os.path.join(wd, 'trace')
-    p = nvh(['boxcar-sched', '--tier', tier(), '--seed', seed(), '--shards', NCPU, '--out', tdir], timeout=7200)
-    gen = json.loads(p.stdout.strip().splitlines()[-1])
-    return gen, sorted(glob.glob(os.path.join(tdir, 'shard-*.ndjson')))
+    import nuc_props
+    return nuc_props.explore(os.path.join(wd, 'box'), NCPU, cmd='boxcar-sched')
 
 
 def run_trace_spec(spec, files, thorough):
